@@ -3,3 +3,4 @@ import ReplicatModel.Generated
 import ReplicatModel.Chunker
 import ReplicatModel.Clmul
 import ReplicatModel.ChunkerSync
+import ReplicatModel.RateLimit
